@@ -36,9 +36,29 @@ type shardLoader interface {
 	drop(filenames ...string)
 }
 
+// shardStamp is what scan remembers about a loaded shard: the modification
+// times of the shard file and of its ".meta" sidecar (zero if there is none).
+// Both are needed: a sidecar that is older than its shard can be removed or
+// replaced without changing the later of the two times.
+type shardStamp struct {
+	shard, meta time.Time
+}
+
+func statShard(fn string) (shardStamp, bool) {
+	fi, err := os.Lstat(fn)
+	if err != nil {
+		return shardStamp{}, false
+	}
+	st := shardStamp{shard: fi.ModTime()}
+	if fiMeta, err := os.Lstat(fn + ".meta"); err == nil {
+		st.meta = fiMeta.ModTime()
+	}
+	return st, true
+}
+
 type DirectoryWatcher struct {
 	dir        string
-	timestamps map[string]time.Time
+	timestamps map[string]shardStamp
 	loader     shardLoader
 
 	// closed once ready
@@ -62,7 +82,7 @@ func (sw *DirectoryWatcher) Stop() {
 func newDirectoryWatcher(dir string, loader shardLoader) (*DirectoryWatcher, error) {
 	sw := &DirectoryWatcher{
 		dir:        dir,
-		timestamps: map[string]time.Time{},
+		timestamps: map[string]shardStamp{},
 		loader:     loader,
 		ready:      make(chan struct{}),
 		quit:       make(chan struct{}),
@@ -140,25 +160,14 @@ func (s *DirectoryWatcher) scan() error {
 		}
 	}
 
-	ts := map[string]time.Time{}
+	ts := map[string]shardStamp{}
 	for _, fn := range fs {
 		if name, version := versionFromPath(fn); latest[name] != version {
 			continue
 		}
 
-		fi, err := os.Lstat(fn)
-		if err != nil {
-			continue
-		}
-
-		ts[fn] = fi.ModTime()
-
-		fiMeta, err := os.Lstat(fn + ".meta")
-		if err != nil {
-			continue
-		}
-		if fiMeta.ModTime().After(fi.ModTime()) {
-			ts[fn] = fiMeta.ModTime()
+		if st, ok := statShard(fn); ok {
+			ts[fn] = st
 		}
 	}
 
@@ -185,6 +194,16 @@ func (s *DirectoryWatcher) scan() error {
 
 	s.loader.drop(toDrop...)
 	s.loader.load(toLoad...)
+
+	// A file that changed while it was being loaded may have been read in its
+	// newer state although we remembered the older times: if it then changes
+	// back (a sidecar written and removed again), nothing would trigger a
+	// reload. Forget the times of such files so the next scan reloads them.
+	for _, k := range toLoad {
+		if st, ok := statShard(k); !ok || st != s.timestamps[k] {
+			s.timestamps[k] = shardStamp{}
+		}
+	}
 
 	return nil
 }
